@@ -50,23 +50,76 @@ TREE_HEIGHT = 128          # circuits/src/map/cpu.rs (the API offers no other he
 
 
 class HashCalls:
-    """The recorded hash calls of one extracted circuit as atoms of the encoder, plus the uninterpreted
-    function they are instances of."""
+    """The recorded hash calls of one extracted circuit as atoms of the encoder: [((a, b), out)] in call order,
+    and the uninterpreted function they are instances of (`out = Hf(a, b)` asserted once per call: congruence
+    is all that is known about the hash)."""
 
     def __init__(self, e):
         self.e = e
         rec = e.extra.get("hash_calls") or []
-        self.calls = [([e.v(c) for c in r["ins"]], e.v(r["out"])) for r in rec]
+        self.calls = [(tuple(e.v(c) for c in r["ins"]), e.v(r["out"])) for r in rec]
         if not getattr(e, "_hf_declared", False):
             e._hf_declared = True
             e.lines.append("(declare-fun Hf (Int Int) Int)")
-            e.lines.append(f"(assert (forall ((x Int) (y Int)) (and (<= 0 (Hf x y)) (< (Hf x y) {e.P}))))" if False else "; Hf: range facts are stated per call")
             for ins, out in self.calls:
                 assert len(ins) == 2, "MapGadget hashes pairs"
                 e.lines.append(f"(assert (= {_A(out)} (Hf {_A(ins[0])} {_A(ins[1])})))")
 
-    def H(self, a, b):
-        return f"(Hf {_A(a)} {_A(b)})"
+
+def canonical_bits(e, x, nbits=255):
+    """(bits, [fact_1, fact_2]): WITNESS for `exists b in {0,1}^nbits. b is the binary representation of the integer x
+    (the canonical representative in [0, p) of the cell)`: the system's own binary digits of the cell x (found by
+    following its linear decomposition rows; a heuristic that only SELECTS the witness) and the SMT Bool `fact`
+    that has to be PROVED of them: every b_i is 0 or 1 and  sum b_i 2^i = x  OVER THE INTEGERS (not just modulo
+    p: for nbits = 255 a field element below 2^255 - p has two 255-bit representations), i.e.
+    b_i = (x div 2^i) mod 2."""
+    dg = e.flatten_digits(x) if not isinstance(x, int) else None
+    if not dg or len(dg) != nbits or any(c != (1 << i) or e.bound(a) > 2 for i, (c, a) in enumerate(dg)):
+        raise NotImplementedError("cannot locate the binary digits of the path index in the extracted system")
+    bits = [a for _, a in dg]
+    S = e.named_sum([(1 << i, b) for i, b in enumerate(bits)])
+    # parity helper (definitional): R := sum_{i>=1} b_i 2^(i-1), so that S = b_0 + 2 R. Measured: with R named the
+    # portfolio proves x = S in 2 s, without it not in 60 s (the argument is: S in {x, x + p}, b_0 = x mod 2, p odd).
+    R = e.fresh("Rh", 0, (1 << (nbits - 1)) - 1)
+    e.lines.append(f"(assert (= {R} {e.lin_smt([(1 << (i - 1), b) for i, b in enumerate(bits) if i >= 1], 0)}))")
+    if not S.startswith("("):
+        e.lines.append(f"(assert (= {S} (+ {bits[0]} (* 2 {R}))))")
+        if not getattr(e, "_parity_side", False):
+            e._parity_side = True
+            decls = [f"(declare-const pb{i} Int)" for i in range(nbits)] + ["(declare-const pS Int)", "(declare-const pR Int)",
+                     "(assert (= pS " + e.lin_smt([(1 << i, f"pb{i}") for i in range(nbits)], 0) + "))",
+                     "(assert (= pR " + e.lin_smt([(1 << (i - 1), f"pb{i}") for i in range(1, nbits)], 0) + "))"]
+            e.side.append(("parity-split-of-binary-sum", decls, "(= pS (+ pb0 (* 2 pR)))"))
+    return bits, [AND(*[isbit(b) for b in bits]), eq(x, S)]
+
+
+STATS = {"lemma_queries": 0, "lemma_proved": 0, "solver_s": 0.0}
+
+
+def prove_then_assume(e, parts, timeout=60):
+    """Cut rule for a specification that is a conjunction C_1 and ... and C_n whose negation (one big disjunction)
+    the solvers do not refute in one query although every conjunct takes seconds on its own. In order, each C_i is
+    sent to the portfolio as `Sys and (the C_j already proved) and not C_i`; on `unsat` C_i is a consequence of
+    the system and is added to the encoder's assertions (Sys and C_i is equivalent to Sys), otherwise nothing is
+    added. The caller still returns the FULL conjunction as the specification, so the deciding query of
+    cengine.decide is `Sys and proved facts and not (C_1 and ... and C_n)`: trivially unsat when everything was
+    proved; when some C_i is violated or undecided it is not among the facts and the main query has to find the
+    counterexample (exact re-check and replay as usual) or comes back INCONCLUSIVE. Returns the names proved."""
+    from . import solvers
+    proved = []
+    for part in parts:
+        name, f = part[0], part[1]
+        keep = part[2] if len(part) > 2 else True      # False: proved on its own but not added (measured: 255
+        #                                                redundant `b = 0 or b = 1` disjunctions slow z3 down 40x)
+        r = solvers.solve(e.text([f"(assert (not {f}))"]), timeout=timeout)
+        STATS["lemma_queries"] += 1
+        STATS["solver_s"] += r.time_s
+        if r.status == "unsat":
+            if keep:
+                e.lines.append(f"(assert {f})")
+            proved.append(name)
+            STATS["lemma_proved"] += 1
+    return proved
 
 
 def poseidon_cut(system):
@@ -98,6 +151,33 @@ class EarlyZeroEnc(csmt.Enc):
         if getattr(self, "_iz_done", False):
             return
         return super().iszero_lemmas(polys)
+
+    def constraint(self, poly, monomial_mode=False):
+        """A degree-2 row every product of which contains one and the same statically Boolean atom b
+        (select / cond_swap rows: b*x - b*y + y - out) is EXACTLY the case split `if b = 0 then row[b:=0]
+        else row[b:=1]` of two linear rows; a two-term linear row over full-range cells is then a plain
+        equality, with no product terms and no quotient."""
+        P = self.P
+        const, lin, quad, high = self.split_poly(poly)
+        if quad and not high:
+            atoms = {q[1] for q in quad} | {q[2] for q in quad}
+            cands = [x for x in atoms if not isinstance(x, int) and self.bound(x) <= 2 and all(x in (a, b) for _, a, b in quad)]
+            if cands:
+                b = sorted(cands)[0]
+                lin0 = {n: c for n, c in lin.items() if n != b}
+                lin1 = dict(lin0)
+                const1 = (const + lin.get(b, 0)) % P
+                for k, x, y in quad:
+                    o = y if x == b else x
+                    if o == b:
+                        const1 = (const1 + k) % P
+                    else:
+                        lin1[o] = (lin1.get(o, 0) + k) % P
+                f0 = self.modeq([(csmt.sym(c, P), n) for n, c in sorted(lin0.items()) if c % P], csmt.sym(const, P), as_bool=True)
+                f1 = self.modeq([(csmt.sym(c, P), n) for n, c in sorted(lin1.items()) if c % P], csmt.sym(const1, P), as_bool=True)
+                self.lines.append(f"(assert (ite (= {b} 0) {f0} {f1}))")
+                return
+        return super().constraint(poly, monomial_mode)
 
     def fmul(self, a, b):
         """as csmt.Enc.fmul, minus the pairwise "equal operand pairs under different names give equal
